@@ -648,9 +648,10 @@ theorem getIdx_names (w : Int) :
 
 /-- **gen_weekday_eq_model.** Every translated method of `weekday` equals the hand model. -/
 theorem gen_weekday_eq_model (w : WdPy.Wd) (n : Option Int) (o : WdPy.Other) (a : Int) :
-    Gen.wdInit a n = .ok (a, n) ∧ Gen.wdCall w n = .ok (WdPy.call w n) ∧ Gen.wdEq w o = .ok (WdPy.eq w o) ∧
+    Gen.wdInit a n = .ok (a, n) ∧ Gen.wdCall Gen.wdInit w n = .ok (WdPy.call w n) ∧ Gen.wdEq w o = .ok (WdPy.eq w o) ∧
     Gen.wdNe w o = .ok (WdPy.ne w o) ∧ Gen.wdHash w = .ok (WdPy.hashKey w) ∧ Gen.wdReduce w = .ok w ∧
-    Gen.wdRepr w = WdPy.repr w ∧ Gen.wdInitRR a n = WdPy.initRR a n := by
+    Gen.wdRepr w = WdPy.repr w ∧ Gen.wdInitRR a n = WdPy.initRR a n ∧
+    Gen.wdCall Gen.wdInitRR w n = WdPy.callRR w n := by
   have hEq : Gen.wdEq w o = .ok (WdPy.eq w o) := by
     unfold Gen.wdEq WdPy.eq
     cases o with
@@ -658,7 +659,7 @@ theorem gen_weekday_eq_model (w : WdPy.Wd) (n : Option Int) (o : WdPy.Other) (a 
     | wd v =>
       obtain ⟨w1, w2⟩ := w; obtain ⟨v1, v2⟩ := v
       by_cases h1 : w1 = v1 <;> by_cases h2 : w2 = v2 <;> simp [h1, h2]
-  refine ⟨rfl, ?_, hEq, ?_, rfl, rfl, ?_, ?_⟩
+  refine ⟨rfl, ?_, hEq, ?_, rfl, rfl, ?_, ?_, ?_⟩
   · unfold Gen.wdCall WdPy.call Gen.wdInit
     by_cases h : n = w.2
     · simp [h, Except.bind]
@@ -674,6 +675,10 @@ theorem gen_weekday_eq_model (w : WdPy.Wd) (n : Option Int) (o : WdPy.Other) (a 
       | none => simp [hr, Except.bind, WdPy.truthy]
       | some v => by_cases hv : v = 0 <;> simp [hr, Except.bind, WdPy.truthy, WdPy.fmtNth, hv]
   · unfold Gen.wdInitRR WdPy.initRR Gen.wdInit; rfl
+  · unfold Gen.wdCall WdPy.callRR Gen.wdInitRR Gen.wdInit
+    by_cases h : n = w.2
+    · simp [h]
+    · by_cases h0 : n = some 0 <;> simp [h, h0, Except.bind]
 
 /-- **weekday_eq_hash.** On weekday objects `==` is an equivalence (it is equality of the two slots), `!=` its negation,
     equal objects hash equal (the hashed tuple is the pair of slots), and nothing without the attributes is equal to one. -/
@@ -716,7 +721,7 @@ theorem weekday_n_strict_here (w : Int) :
 
 /-- **weekday_call_spec.** `wd(n)` is the weekday `wd.weekday` with the new `n`; it is the SAME object exactly when `n` equals
     the object's own `n` (so `MO(None) is MO`, `MO(+1)(+1)` is itself, and `MO(+1)` builds a new object on every call). -/
-theorem weekday_call_spec (w r : WdPy.Wd) (n : Option Int) (same : Bool) (h : Gen.wdCall w n = .ok (r, same)) :
+theorem weekday_call_spec (w r : WdPy.Wd) (n : Option Int) (same : Bool) (h : Gen.wdCall Gen.wdInit w n = .ok (r, same)) :
     r = (w.1, n) ∧ (same = true ↔ n = w.2) ∧ (same = true → r = w) := by
   rw [(gen_weekday_eq_model w n .noAttr 0).2.1] at h
   injection h with h
@@ -725,6 +730,24 @@ theorem weekday_call_spec (w r : WdPy.Wd) (n : Option Int) (same : Bool) (h : Ge
   refine ⟨h1.symm, ?_, ?_⟩
   · rw [← h2]; simp
   · intro hs; rw [← h2] at hs; simp at hs; rw [← h1, hs]
+
+/-- **weekday_call_rrule.** For an object of class `rrule.weekday` the new object is built by THAT class: `MO(0)` raises ValueError,
+    every other `n` behaves as in the base class. -/
+theorem weekday_call_rrule (w : WdPy.Wd) (n : Option Int) :
+    (n ≠ some 0 ∨ n = w.2 → Gen.wdCall Gen.wdInitRR w n = Gen.wdCall Gen.wdInit w n) ∧
+    (n = some 0 → w.2 ≠ some 0 → Gen.wdCall Gen.wdInitRR w n = .error .ValueError) := by
+  rw [(gen_weekday_eq_model w n .noAttr 0).2.2.2.2.2.2.2.2, (gen_weekday_eq_model w n .noAttr 0).2.1]
+  unfold WdPy.callRR WdPy.call
+  constructor
+  · intro h
+    by_cases e : n = w.2
+    · simp [e]
+    · have h0 : n ≠ some 0 := by rcases h with h | h; exact h; exact absurd h e
+      simp [e, h0]
+  · intro h0 hw
+    subst h0
+    have e : ¬ (some (0 : Int) = w.2) := fun x => hw x.symm
+    simp [e]
 
 /-- **weekday_repr_spec.** `repr`: the bare two-letter name when `n` is None or 0 (so `repr` does not distinguish them), the name
     followed by the signed `n` in parentheses otherwise; IndexError exactly outside −7..6. -/
@@ -766,6 +789,7 @@ example : normalizedInt { hours := 100, minutes := -61, hasTime := 0 } = { days 
   decide +kernel
 example : Gen.wdRepr (0, some (-2)) = .ok "MO(-2)" ∧ Gen.wdRepr (6, some 1) = .ok "SU(+1)" ∧ Gen.wdRepr (-1, none) = .ok "SU" := by
   decide +kernel
-example : Gen.wdCall (0, some 1) (some 1) = .ok ((0, some 1), true) ∧ Gen.wdCall (0, none) (some 1) = .ok ((0, some 1), false) := by
+example : Gen.wdCall Gen.wdInit (0, some 1) (some 1) = .ok ((0, some 1), true) ∧ Gen.wdCall Gen.wdInit (0, none) (some 1) = .ok ((0, some 1), false) ∧
+    Gen.wdCall Gen.wdInitRR (0, none) (some 0) = .error .ValueError := by
   decide +kernel
 end C16
